@@ -569,3 +569,204 @@ pub fn stress_threads(sseed: u64, per_thread: u64) -> Report {
     rep.case = json!({"engine":"stress-threads","threads":threads,"keys":n_keys,"cancellations":with_cancels,"requests":results.len(),"inner_calls":serial_key.len(),"shared_results":shared,"leader_cancelled_outcomes":cancelled_seen});
     rep
 }
+
+// ---------------------------------------------------------------------------------------
+// Engine "unwind-context": requests made and futures polled from a destructor that runs while the
+// thread unwinds from an unrelated panic (clean-up code that flushes a client, a scope guard that
+// drives a future one more step). `std::thread::panicking()` is true for all of that code although
+// nothing in the coalesced call itself has panicked, so the call must be treated like any other:
+// one inner call per key while it is in flight, and everybody who joined gets its result.
+// Deterministic: manual polls with a no-op waker, inner calls completed by hand.
+struct ManualInner {
+    st: Arc<std::sync::Mutex<ManualState>>,
+}
+#[derive(Default)]
+struct ManualState {
+    calls: u64,
+    in_flight: u64,
+    max_in_flight: u64,
+    senders: Vec<futures::channel::oneshot::Sender<Result<u64, String>>>,
+}
+impl Clone for ManualInner {
+    fn clone(&self) -> Self {
+        ManualInner { st: self.st.clone() }
+    }
+}
+struct InFlight(Arc<std::sync::Mutex<ManualState>>);
+impl Drop for InFlight {
+    fn drop(&mut self) {
+        self.0.lock().unwrap_or_else(|e| e.into_inner()).in_flight -= 1;
+    }
+}
+impl tower::Service<u32> for ManualInner {
+    type Response = u64;
+    type Error = String;
+    type Future = std::pin::Pin<Box<dyn std::future::Future<Output = Result<u64, String>> + Send>>;
+    fn poll_ready(&mut self, _cx: &mut std::task::Context<'_>) -> std::task::Poll<Result<(), String>> {
+        std::task::Poll::Ready(Ok(()))
+    }
+    fn call(&mut self, _key: u32) -> Self::Future {
+        let (tx, rx) = futures::channel::oneshot::channel();
+        {
+            let mut s = self.st.lock().unwrap_or_else(|e| e.into_inner());
+            s.calls += 1;
+            s.in_flight += 1;
+            s.max_in_flight = s.max_in_flight.max(s.in_flight);
+            s.senders.push(tx);
+        }
+        let g = InFlight(self.st.clone());
+        Box::pin(async move {
+            let _g = g;
+            rx.await.unwrap_or_else(|_| Err("inner dropped".to_string()))
+        })
+    }
+}
+
+/// Runs `f` from a destructor while the thread unwinds from an unrelated panic; a panic inside `f`
+/// is caught there (a panic escaping a destructor during unwinding would abort the process).
+fn during_unwind<R>(f: impl FnOnce() -> R) -> Result<R, String> {
+    struct OnDrop<'a, R, F: FnOnce() -> R>(Option<F>, &'a mut Option<std::thread::Result<R>>);
+    impl<R, F: FnOnce() -> R> Drop for OnDrop<'_, R, F> {
+        fn drop(&mut self) {
+            debug_assert!(std::thread::panicking());
+            if let Some(f) = self.0.take() {
+                *self.1 = Some(std::panic::catch_unwind(std::panic::AssertUnwindSafe(f)));
+            }
+        }
+    }
+    let mut slot: Option<std::thread::Result<R>> = None;
+    let _ = std::panic::catch_unwind(std::panic::AssertUnwindSafe(|| {
+        let _g = OnDrop(Some(f), &mut slot);
+        std::panic::resume_unwind(Box::new("unrelated panic (harness)"));
+    }));
+    match slot {
+        Some(Ok(r)) => Ok(r),
+        Some(Err(_)) => Err(crate::sim::take_last_panic().unwrap_or_else(|| "panic".to_string())),
+        None => Err("destructor did not run".to_string()),
+    }
+}
+
+pub fn unwind_context(sseed: u64) -> Report {
+    use std::future::Future;
+    use std::task::{Context, Poll, Wake, Waker};
+    use tower::Service;
+    struct Noop;
+    impl Wake for Noop {
+        fn wake(self: Arc<Self>) {}
+    }
+    crate::sim::install_panic_hook();
+    let mut rng = Prng::new(sseed);
+    let mut rep = Report::default();
+    let waker = Waker::from(Arc::new(Noop));
+    let mut cx = Context::from_waker(&waker);
+    let st = Arc::new(std::sync::Mutex::new(ManualState::default()));
+    let mut svc = CoalesceLayer::new(|k: &u32| *k).layer(ManualInner { st: st.clone() });
+    type Fut = std::pin::Pin<Box<dyn Future<Output = Result<u64, CoalesceError<String>>>>>;
+    // which steps of the leader's life happen in the unwinding context
+    let call_in_unwind = rng.chance(0.5);
+    let first_poll_in_unwind = rng.chance(0.5);
+    let later_poll_in_unwind = rng.chance(0.5) || (!call_in_unwind && !first_poll_in_unwind);
+    let n_waiters = rng.range(1, 3) as usize;
+    let ok = rng.chance(0.7);
+    let key = rng.below(3) as u32;
+    let show = |r: &Result<u64, CoalesceError<String>>| match r {
+        Ok(v) => format!("Ok({v})"),
+        Err(CoalesceError::Service(e)) => format!("Err({e})"),
+        Err(CoalesceError::LeaderCancelled) => "LeaderCancelled".to_string(),
+        Err(CoalesceError::RecvError) => "RecvError".to_string(),
+    };
+    let mut steps = vec![];
+    let mut fail = |rep: &mut Report, sig: &str, msg: String| {
+        if rep.violations.is_empty() {
+            rep.violate(format!("C11:unwind-context:{sig}"), msg);
+        }
+    };
+    let _ = svc.poll_ready(&mut cx);
+    // leader: call()
+    let mut leader: Fut = if call_in_unwind {
+        steps.push("leader call() from a destructor during an unrelated unwind");
+        match during_unwind(|| Box::pin(svc.call(key)) as Fut) {
+            Ok(f) => f,
+            Err(m) => {
+                fail(&mut rep, "library-panic", format!("call() panicked: {m}"));
+                return rep;
+            }
+        }
+    } else {
+        Box::pin(svc.call(key))
+    };
+    // leader: first poll (starts the inner call)
+    let r = if first_poll_in_unwind {
+        steps.push("leader first poll from a destructor during an unrelated unwind");
+        during_unwind(|| leader.as_mut().poll(&mut cx).is_ready())
+    } else {
+        Ok(leader.as_mut().poll(&mut cx).is_ready())
+    };
+    match r {
+        Ok(false) => {}
+        Ok(true) => fail(&mut rep, "leader-resolved-early", "the leader resolved before its inner call was completed".to_string()),
+        Err(m) => fail(&mut rep, "library-panic", format!("the leader's first poll panicked: {m}")),
+    }
+    // waiters join
+    let mut waiters: Vec<Fut> = vec![];
+    for _ in 0..n_waiters {
+        let _ = svc.poll_ready(&mut cx);
+        let mut f: Fut = Box::pin(svc.call(key));
+        if f.as_mut().poll(&mut cx).is_ready() {
+            fail(&mut rep, "waiter-resolved-early", format!("a request for key {key} resolved while the leader's inner call was still running"));
+        }
+        waiters.push(f);
+    }
+    if later_poll_in_unwind {
+        steps.push("one more poll of the pending leader from a destructor during an unrelated unwind");
+        match during_unwind(|| leader.as_mut().poll(&mut cx).is_ready()) {
+            Ok(false) => {}
+            Ok(true) => fail(&mut rep, "leader-resolved-early", "the leader resolved before its inner call was completed".to_string()),
+            Err(m) => fail(&mut rep, "library-panic", format!("a poll of the pending leader panicked: {m}")),
+        }
+        // somebody who arrives now must still join the running call
+        let _ = svc.poll_ready(&mut cx);
+        let mut f: Fut = Box::pin(svc.call(key));
+        if f.as_mut().poll(&mut cx).is_ready() {
+            fail(&mut rep, "waiter-resolved-early", format!("a request for key {key} resolved while the leader's inner call was still running"));
+        }
+        waiters.push(f);
+    }
+    {
+        let s = st.lock().unwrap_or_else(|e| e.into_inner());
+        if s.calls != 1 || s.max_in_flight > 1 {
+            fail(&mut rep, "second-inner-call-while-in-flight", format!("{} inner calls for key {key} ({} in flight at once) although the first was still running; steps: {steps:?}", s.calls, s.max_in_flight));
+        }
+    }
+    // complete every inner call that exists with a distinct value: #1 -> 101, #2 -> 102 ...
+    let senders: Vec<_> = std::mem::take(&mut st.lock().unwrap_or_else(|e| e.into_inner()).senders);
+    for (i, tx) in senders.into_iter().enumerate() {
+        let _ = tx.send(if ok { Ok(101 + i as u64) } else { Err(format!("e{}", 101 + i)) });
+    }
+    let expect = if ok { "Ok(101)".to_string() } else { "Err(e101)".to_string() };
+    let mut results = vec![];
+    for (name, f) in std::iter::once(("leader".to_string(), &mut leader)).chain(waiters.iter_mut().enumerate().map(|(i, f)| (format!("waiter {}", i + 1), f))) {
+        let mut out = None;
+        for _ in 0..16 {
+            if let Poll::Ready(r) = f.as_mut().poll(&mut cx) {
+                out = Some(show(&r));
+                break;
+            }
+        }
+        results.push((name, out));
+    }
+    for (name, out) in &results {
+        match out {
+            None => fail(&mut rep, "caller-stuck", format!("{name} did not resolve within 16 polls after the inner call completed; steps: {steps:?}")),
+            Some(o) if *o != expect => fail(&mut rep, "wrong-result", format!("{name} resolved with {o}, the inner call it joined returned {expect}; steps: {steps:?}; all results: {results:?}")),
+            _ => {}
+        }
+    }
+    rep.count("requests_made_or_polled_during_an_unwind", steps.len() as u64);
+    rep.count("waiters", waiters.len() as u64);
+    rep.bucket(format!("call={} first_poll={} later_poll={}", call_in_unwind, first_poll_in_unwind, later_poll_in_unwind));
+    rep.nontrivial = !steps.is_empty();
+    rep.sig = crate::prng::mix(((call_in_unwind as u64) << 2) | ((first_poll_in_unwind as u64) << 1) | later_poll_in_unwind as u64, (n_waiters as u64) << 8 | (ok as u64) << 4 | key as u64);
+    rep.case = json!({"engine": "unwind-context", "steps": steps, "waiters": waiters.len(), "inner_ok": ok, "key": key});
+    rep
+}
